@@ -37,6 +37,14 @@ def main():
             vals = sorted(m.value for m in en.PairEnum)
             out["fate"] = "distinct" if vals == sorted([a, b]) else "merged"
             out["py_names"] = sorted(m.name for m in en.PairEnum)
+        elif scope == "alias_in_fragment":
+            mod = import_pkg(P["package"] + ".pair_op")
+            cls = [c for n, c in vars(mod).items() if n == "PairOpT"][0]
+            keys = {(f.alias or n) for n, f in cls.model_fields.items()}
+            payload = {"t": {"val": 1, a: 1, b: 1}}
+            dumped = mod.PairOp.model_validate(payload).model_dump(by_alias=True)
+            out["keys"] = sorted(keys)
+            out["fate"] = "distinct" if {"val", a, b} <= keys and dumped == payload else "merged"
         elif scope == "enum_default":
             it = import_pkg(P["package"] + ".input_types")
             inst = it.PairIn()
